@@ -31,13 +31,16 @@ func cmdJSON(o *Out, line string, f []string) {
 	sec := sections(f)
 	n, flushMs := int(atoi64(sec[0][0])), int(atoi64(sec[0][1]))
 	var text bytes.Buffer
-	var parsed []string // what each good line parses to (hex), in order, up to the first bad line
-	failing := false
+	var parsed []string // what each parseable line parses to (hex), in order (long lines included)
+	hasBad, hasLong := false, false
+	noEOL := false
 	for _, tok := range sec[1] {
 		switch {
+		case tok == "NOEOL": // the text does not end with a newline
+			noEOL = true
 		case tok == "BAD":
 			text.WriteString("{\"a\": 1, \"b\": \n")
-			failing = true
+			hasBad = true
 		case strings.HasPrefix(tok, "LONG"):
 			var d bson.D
 			if err := bson.Unmarshal(unhx(tok[4:]), &d); err != nil {
@@ -47,7 +50,8 @@ func cmdJSON(o *Out, line string, f []string) {
 			js, _ := bson.MarshalExtJSON(d, false, false)
 			text.Write(js)
 			text.WriteByte('\n')
-			failing = true
+			hasLong = true
+			parsed = append(parsed, tok[4:])
 		default:
 			var d bson.D
 			if err := bson.Unmarshal(unhx(tok), &d); err != nil {
@@ -59,10 +63,11 @@ func cmdJSON(o *Out, line string, f []string) {
 			}
 			text.Write(js)
 			text.WriteByte('\n')
-			if !failing {
-				parsed = append(parsed, tok)
-			}
+			parsed = append(parsed, tok)
 		}
+	}
+	if noEOL && text.Len() > 0 {
+		text.Truncate(text.Len() - 1)
 	}
 	flush := time.Hour
 	if flushMs > 0 {
@@ -87,15 +92,16 @@ func cmdJSON(o *Out, line string, f []string) {
 		}
 		if derr != nil {
 			o.violation(line, "output of CollectJSONStream does not decode", derr.Error())
-		} else if failing {
-			o.violation(line, "a malformed or unreadable line was not reported: nil error with a shortened result",
-				map[string]int{"lines_before": len(parsed), "decoded": len(docs)})
+		} else if hasBad {
+			o.violation(line, "a malformed line was not reported: nil error",
+				map[string]int{"parseable_lines": len(parsed), "decoded": len(docs)})
 		} else if strings.Join(docs, " ") != strings.Join(want, " ") {
-			o.violation(line, "decoded output is not the numeric projection of every line in order",
+			// a line over 64 KiB may be refused with an error, or read in full; never dropped or cut silently
+			o.violation(line, "nil error, but the decoded output is not the numeric projection of every line in order",
 				map[string]int{"lines": len(want), "decoded": len(docs)})
 		}
 	}
-	if err != nil && !failing {
+	if err != nil && !hasBad && !hasLong {
 		o.violation(line, "a well-formed stream was rejected", err.Error())
 	}
 	o.nontrivial(line)
@@ -186,8 +192,16 @@ func streamJSON(o *Out, rng *rand.Rand, thorough bool, _ []string) {
 		if rng.Intn(4) == 0 {
 			flush = 1 + rng.Intn(3)
 		}
+		if rng.Intn(3) == 0 {
+			toks = append(toks, "NOEOL")
+		}
 		run(o, fmt.Sprintf("json %d %d | %s", 1+rng.Intn(6), flush, strings.Join(toks, " ")))
 	}
+	// the last line without a newline: well-formed, malformed, too long; a single unterminated line
+	run(o, fmt.Sprintf("json 3 0 | %s %s %s NOEOL", hx(mkDoc(0, 1)), hx(mkDoc(0, 2)), hx(mkDoc(0, 3))))
+	run(o, fmt.Sprintf("json 3 0 | %s %s BAD NOEOL", hx(mkDoc(0, 1)), hx(mkDoc(0, 2))))
+	run(o, fmt.Sprintf("json 3 0 | %s LONG%s NOEOL", hx(mkDoc(0, 1)), hx(mkDoc(0, 2))))
+	run(o, fmt.Sprintf("json 2 0 | %s NOEOL", hx(mkDoc(1, 1))))
 	// line lengths across the 64 KiB scanner limit are covered by LONG; a long but legal line:
 	run(o, fmt.Sprintf("json 3 0 | %s %s", hx(mkDoc(0, 1)), hx(mkDoc(0, 2))))
 }
